@@ -550,7 +550,7 @@ OBLIGATIONS = [
        symbolic="(validation of the translator, not a claim about nauyaca)", functions=["TokenBucket.consume"], twin=False),
     Ob("no_await", no_await, kind="diff", quick=30, thorough=30,
        symbolic="(structural)", functions=["RateLimiter.process_request", "TokenBucket.consume"], twin=False),
-    Ob("history", history, quick=400, thorough=1200,
+    Ob("history", history, quick=400, thorough=2400,
        symbolic="histories of 6 (quick) / 7 events on one limiter: request from A | request from B | 700 idle seconds + one pass of the "
                 "real clean-up loop; capacity 1 (quick) / 1..2; every decision compared with an independent per-address bucket",
        functions=["RateLimiter.process_request", "TokenBucket.consume", "clean-up coroutine (discovered)"],
